@@ -151,8 +151,41 @@ func extractCrash(p *pkgs, f *facts) {
 		}
 		linesDrained = deferIdx >= 0 && selIdx >= 0 && deferIdx < selIdx
 	}
-	f.lean = append(f.lean, fmt.Sprintf("def crash : Crash.Params := ⟨%s, %s, %s, %s, %s, %s⟩",
-		leanBool(cancels), leanBool(exits), leanBool(drains), leanBool(watches), leanBool(timeout), leanBool(linesDrained)))
+	// both broker StartStream loops: a top-level `defer s.Close()` before the first statement that contains a return
+	quitClosed := true
+	for _, recv := range []string{"gRPCBrokerClientImpl", "gRPCBrokerServer"} {
+		fn := p.fn(recv, "StartStream")
+		if fn == nil {
+			f.miss = append(f.miss, recv+".StartStream")
+			quitClosed = false
+			continue
+		}
+		ok := false
+		for _, st := range fn.Body.List {
+			if d, isDefer := st.(*ast.DeferStmt); isDefer && exprString(d.Call) == "s.Close()" {
+				ok = true
+				break
+			}
+			hasReturn := false
+			ast.Inspect(st, func(n ast.Node) bool {
+				if _, isLit := n.(*ast.FuncLit); isLit {
+					return false
+				}
+				if _, isRet := n.(*ast.ReturnStmt); isRet {
+					hasReturn = true
+				}
+				return true
+			})
+			if hasReturn {
+				break
+			}
+		}
+		if !ok {
+			quitClosed = false
+		}
+	}
+	f.lean = append(f.lean, fmt.Sprintf("def crash : Crash.Params := ⟨%s, %s, %s, %s, %s, %s, %s⟩",
+		leanBool(cancels), leanBool(exits), leanBool(drains), leanBool(watches), leanBool(timeout), leanBool(linesDrained), leanBool(quitClosed)))
 	f.set("crash", map[string]interface{}{"waitCancelsCtx": cancels, "waitSetsExited": exits, "drainsAfterScannerError": drains,
-		"startWatchesExit": watches, "startHasTimeout": timeout, "linesAlwaysDrained": linesDrained, "waitGoroutines": nWait})
+		"startWatchesExit": watches, "startHasTimeout": timeout, "linesAlwaysDrained": linesDrained, "streamEndClosesQuit": quitClosed, "waitGoroutines": nWait})
 }
